@@ -122,6 +122,10 @@ pub fn resolve_in(fs: &Fs, current_file: &str, spec: &str) -> Option<String> {
         }
     };
     let trailing_slash = spec.ends_with('/') || spec == "." || spec == "..";
+    // a JSON module named as written (the simulated project has `resolveJsonModule` switched on)
+    if !trailing_slash && base.ends_with(".json") && fs.contains_key(&base) {
+        return Some(base);
+    }
     if !trailing_slash {
         for ext in TS_EXTS {
             let c = format!("{}{}", base, ext);
@@ -247,7 +251,14 @@ impl Host for SimHost {
         if r.is_some() {
             st.files_read.insert(file_name.to_string());
         }
-        st.handed(file_name, r.clone());
+        if r.is_some() {
+            st.handed(file_name, r.clone());
+        } else {
+            // a read that fails leaves nothing behind in the session (nothing is cached, the next
+            // build asks again): the session knows nothing about this file
+            st.handed(file_name, None);
+            st.session_view.remove(file_name);
+        }
         r
     }
     fn resolve_import(&mut self, current_file: &str, specifier: &str) -> Option<String> {
